@@ -14,18 +14,21 @@ VARIABLES log
 
 P == {"p1", "p2", "p3"}
 Refs == {"main", "feat"}
-NoGlobal == [gthr |-> {}, bfp |-> {}, all |-> P]
+NoApps == <<>>
+NoGlobal == [gthr |-> {}, bfp |-> {}, all |-> P, apps |-> NoApps]
 MCPol ==
     "A" :> ([rules |-> [main |-> <<[pr |-> {"p1", "p2"}, thr |-> 1]>>, feat |-> <<>>]] @@ NoGlobal)
  @@ "B" :> ([rules |-> [main |-> <<[pr |-> {"p2"}, thr |-> 1]>>, feat |-> <<>>]] @@ NoGlobal)
  @@ "C" :> ([rules |-> [main |-> <<[pr |-> {"p1", "p2", "p3"}, thr |-> 2]>>, feat |-> <<[pr |-> {"p3"}, thr |-> 1]>>]] @@ NoGlobal)
- @@ "G" :> [rules |-> [main |-> <<[pr |-> {"p1", "p2"}, thr |-> 1]>>, feat |-> <<>>], gthr |-> {[refs |-> {"feat"}, thr |-> 1]}, bfp |-> {}, all |-> P]
- @@ "H" :> [rules |-> [main |-> <<[pr |-> {"p1", "p2"}, thr |-> 1]>>, feat |-> <<>>], gthr |-> {}, bfp |-> {"main"}, all |-> P]
- @@ "T" :> [rules |-> [main |-> <<[pr |-> {"p1"}, thr |-> 1]>>, feat |-> <<>>], gthr |-> {[refs |-> {"main", "feat"}, thr |-> 2]}, bfp |-> {}, all |-> P]
+ @@ "G" :> [rules |-> [main |-> <<[pr |-> {"p1", "p2"}, thr |-> 1]>>, feat |-> <<>>], gthr |-> {[refs |-> {"feat"}, thr |-> 1]}, bfp |-> {}, all |-> P, apps |-> NoApps]
+ @@ "H" :> [rules |-> [main |-> <<[pr |-> {"p1", "p2"}, thr |-> 1]>>, feat |-> <<>>], gthr |-> {}, bfp |-> {"main"}, all |-> P, apps |-> NoApps]
+ @@ "T" :> [rules |-> [main |-> <<[pr |-> {"p1"}, thr |-> 1]>>, feat |-> <<>>], gthr |-> {[refs |-> {"main", "feat"}, thr |-> 2]}, bfp |-> {}, all |-> P, apps |-> NoApps]
+ @@ "R" :> [rules |-> [main |-> <<[pr |-> P, thr |-> 2]>>, feat |-> <<>>], gthr |-> {}, bfp |-> {}, all |-> P,
+            apps |-> [appT |-> [trusted |-> TRUE, key |-> "appkey"], appU |-> [trusted |-> FALSE, key |-> "appkey2"]]]
  @@ "T0" :> ([rules |-> [main |-> <<[pr |-> {"p1"}, thr |-> 1]>>, feat |-> <<>>]] @@ NoGlobal)
 
-PolIds == CASE Family = "nopolicy" -> {"A"} [] Family = "global" -> {"A", "G", "H", "T"} [] Family = "recovery" -> {"A", "B"} [] OTHER -> {"A", "B", "C"}
-MainSigners == CASE Family = "global" -> {"p1", "p3", "kU"} [] Family = "recovery" -> {"p1", "p3"} [] OTHER -> {"p1", "p2", "p3", "kU", "none"}
+PolIds == CASE Family = "approvals" -> {"R"} [] Family = "nopolicy" -> {"A"} [] Family = "chain" -> {"A", "B"} [] Family = "global" -> {"A", "G", "H", "T"} [] Family = "recovery" -> {"A", "B"} [] OTHER -> {"A", "B", "C"}
+MainSigners == CASE Family = "approvals" -> {"p1", "kU"} [] Family = "chain" -> {"p1", "p3"} [] Family = "global" -> {"p1", "p3", "kU"} [] Family = "recovery" -> {"p1", "p3"} [] OTHER -> {"p1", "p2", "p3", "kU", "none"}
 
 PrevOf(l, r) == LET S == {j \in 1..Len(l) : IsFor(l[j], r)} IN IF S = {} THEN 0 ELSE Max(S)
 RefEntries(l) ==
@@ -35,28 +38,49 @@ PropEntries(l) == IF Family = "core" THEN {[k |-> "prop", ref |-> "main", s |-> 
 AnnEntries(l) == LET R == {i \in 1..Len(l) : l[i].k = "ref"} IN
                  {[k |-> "ann", tg |-> {i}, s |-> "p1"] : i \in R}
                  \cup (IF Family = "recovery" THEN {[k |-> "ann", tg |-> {i, j}, s |-> "p1"] : i, j \in R} ELSE {})
-AttEntries(l) == IF Family = "recovery" THEN {}
-                 ELSE {[k |-> "att", apps |-> {[ref |-> "main", from |-> f, tree |-> t, by |-> by]}] :
-                          f \in {PrevOf(l, "main")}, t \in {1, 2}, by \in {{"p2"}, {"p2", "p3"}}}
-                      \cup {[k |-> "att", apps |-> {}]}
-OtherEntries(l) == {[k |-> "pol", v |-> v] : v \in PolIds} \cup (IF Family = "core" THEN {[k |-> "stg"]} ELSE {})
+App(r, f, t, sr, sf, st, by) == [ref |-> r, from |-> f, tree |-> t, sref |-> sr, sfrom |-> sf, stree |-> st, by |-> by]
+Cr(r, f, t, sr, sf, st, app, signer, ap) == [ref |-> r, from |-> f, tree |-> t, sref |-> sr, sfrom |-> sf, stree |-> st, app |-> app,
+                                             signer |-> signer, approvers |-> ap, dismissed |-> {}]
+AttEntries(l) ==
+    IF Family \in {"recovery", "chain"} THEN {}
+    ELSE IF Family = "approvals" THEN
+         LET f == PrevOf(l, "main") IN
+         \* authorizations and code-review approvals for the next change of main (tree 1 or 2), stored at the matching path or at
+         \* the path of the other tree, with statements naming either; signed by trusted / untrusted keys
+         {[k |-> "att", apps |-> {App("main", f, t, "main", f, st, by)}, crs |-> {}] : t \in {1, 2}, st \in {1, 2}, by \in {{"p2"}, {"kU"}}}
+         \cup {[k |-> "att", apps |-> {}, crs |-> {Cr("main", f, t, "main", f, st, app, sg, ap)}] :
+                   t \in {1, 2}, st \in {1, 2}, app \in {"appT", "appU"}, sg \in {"appkey", "kU"}, ap \in {{"p2"}, {"p1", "p2"}}}
+         \cup {[k |-> "att", apps |-> {App("main", f, 1, "main", f, 1, {"p2"})}, crs |-> {Cr("main", f, 1, "main", f, 1, "appT", "appkey", {"p2", "p3"})}]}
+         \cup {[k |-> "att", apps |-> {App("main", f, 1, "feat", f, 1, {"p2"})}, crs |-> {}], [k |-> "att", apps |-> {App("main", f, 1, "main", 0, 1, {"p2"})}, crs |-> {}]}
+    ELSE {[k |-> "att", apps |-> {App("main", f, t, "main", f, t, by)}, crs |-> {}] :
+              f \in {PrevOf(l, "main")}, t \in {1, 2}, by \in {{"p2"}, {"p2", "p3"}}}
+         \cup {[k |-> "att", apps |-> {}, crs |-> {}]}
+OtherEntries(l) == {[k |-> "pol", v |-> v, cv |-> c, sv |-> x] : v \in PolIds, c \in (IF Family = "chain" THEN BOOLEAN ELSE {TRUE}),
+                                                                  x \in (IF Family = "chain" THEN BOOLEAN ELSE {TRUE})} \cup (IF Family = "core" THEN {[k |-> "stg"]} ELSE {})
 
 Alphabet(l) == RefEntries(l) \cup PropEntries(l) \cup AnnEntries(l) \cup AttEntries(l) \cup OtherEntries(l)
 
-Init == log \in (IF Family = "nopolicy" THEN {<<>>} ELSE {<<[k |-> "pol", v |-> "A"]>>})
+Init == log \in (IF Family = "nopolicy" THEN {<<>>} ELSE {<<[k |-> "pol", v |-> (IF Family = "approvals" THEN "R" ELSE "A"), cv |-> TRUE, sv |-> TRUE]>>})
 Next == /\ Len(log) < MaxLen
         /\ \E e \in Alphabet(log) : log' = Append(log, e)
 Spec == Init /\ [][Next]_log
 
 \* C01: the coded workflow without deviations returns the documented verdict
-C01Refines == \A r \in Refs : OkOrFail(Impl(log, r, {})) = DVerdictC01(log, r)
+C01Refines == \A r \in Refs : Between(OkOrFail(Impl(log, r, {})), DVerdictC01(log, r, FALSE), DVerdictC01(log, r, TRUE))
+\* C02: every mode fails when a policy entry it depends on breaks the chain or is not self-valid; modes agree
+RefPositions(r) == {i \in 1..Len(log) : log[i].k = "ref" /\ log[i].ref = r}
+C02Refines == \A r \in Refs :
+                 /\ Between(OkOrFail(ImplLatest(log, r, {})), DVerdictLatest(log, r, FALSE), DVerdictLatest(log, r, TRUE))
+                 /\ \A i \in RefPositions(r) : Between(OkOrFail(ImplFrom(log, r, i, {})), DVerdictFrom(log, r, i, FALSE), DVerdictFrom(log, r, i, TRUE))
+                 /\ (Impl(log, r, {}) = "ok" => ImplLatest(log, r, {}) = "ok")
+\* C09 is C01Refines over the approvals family (statement-bound approvals, code-review approvals)
 \* C11: global rules only add constraints -- removing them never turns an accepted history into a rejected one
-Strip == "A" :> "A" @@ "B" :> "B" @@ "C" :> "C" @@ "G" :> "A" @@ "H" :> "A" @@ "T" :> "T0"
+Strip == "R" :> "R" @@ "A" :> "A" @@ "B" :> "B" @@ "C" :> "C" @@ "G" :> "A" @@ "H" :> "A" @@ "T" :> "T0"
 StripLog(l) == [i \in DOMAIN l |-> IF l[i].k = "pol" THEN [l[i] EXCEPT !.v = Strip[l[i].v]] ELSE l[i]]
 C11Mono == \A r \in Refs : /\ Impl(log, r, {}) = "ok" => Impl(StripLog(log), r, {}) = "ok"
-                           /\ DVerdictC01(log, r) = "ok" => DVerdictC01(StripLog(log), r) = "ok"
+                           /\ DVerdictC01(log, r, TRUE) = "ok" => DVerdictC01(StripLog(log), r, TRUE) = "ok"
 \* C07: the workflow as coded (fix not re-verified) tolerates exactly the repaired violations
-C07Refines == \A r \in Refs : OkOrFail(Impl(log, r, {"FixEntryNotVerified"})) = DVerdictC07(log, r)
+C07Refines == \A r \in Refs : Between(OkOrFail(Impl(log, r, {"FixEntryNotVerified"})), DVerdictC07(log, r, FALSE), DVerdictC07(log, r, TRUE))
 
 Interesting == \E r \in Refs : Impl(log, r, AsBuilt) # Impl(log, r, {}) \/ Impl(log, r, {}) \in {"notskipped", "notfound"}
                                 \/ (\E i \in 1..Len(log) : IsFor(log[i], r) /\ Skipped(log, i) /\ Impl(log, r, {}) = "ok")
@@ -64,12 +88,13 @@ Weight == LET RECURSIVE W(_, _)
               W(l, n) == IF l = <<>> THEN 0 ELSE n * (Len(Head(l).k) + (IF Head(l).k \in {"ref", "prop"} THEN Head(l).tree * 5 + Head(l).par * 3 + Len(Head(l).s) ELSE 1)) + W(Tail(l), n + 1)
           IN W(log, 1)
 Norm(e) == CASE e.k = "ann" -> [k |-> "ann", tg |-> SetToSeq(e.tg), s |-> e.s]
-             [] e.k = "att" -> [k |-> "att", apps |-> SetToSeq({[ref |-> a.ref, from |-> a.from, tree |-> a.tree, by |-> SetToSeq(a.by)] : a \in e.apps})]
+             [] e.k = "att" -> [k |-> "att", apps |-> SetToSeq({[a EXCEPT !.by = SetToSeq(a.by)] : a \in e.apps}),
+                                crs |-> SetToSeq({[a EXCEPT !.approvers = SetToSeq(a.approvers), !.dismissed = SetToSeq(a.dismissed)] : a \in e.crs})]
              [] OTHER -> e
 PolJson == [v \in PolIds \cup {Strip[x] : x \in PolIds} |-> [rules |-> [r \in Refs |-> [n \in DOMAIN Pol[v].rules[r] |-> [pr |-> SetToSeq(Pol[v].rules[r][n].pr), thr |-> Pol[v].rules[r][n].thr]]],
                               gthr |-> SetToSeq({[refs |-> SetToSeq(x.refs), thr |-> x.thr] : x \in Pol[v].gthr}),
-                              bfp |-> SetToSeq(Pol[v].bfp), all |-> SetToSeq(Pol[v].all)]]
-Emit == IF Len(log) <= 1 /\ log \in {<<>>, <<[k |-> "pol", v |-> "A"]>>}
+                              bfp |-> SetToSeq(Pol[v].bfp), all |-> SetToSeq(Pol[v].all), apps |-> Pol[v].apps]]
+Emit == IF Len(log) <= 1 /\ (log = <<>> \/ log[1].k = "pol")
         THEN PrintT(ToJson([t |-> "POL", pol |-> PolJson, strip |-> [v \in PolIds |-> Strip[v]]]))
         ELSE IF Len(log) >= 2 /\ (\E r \in Refs : HasEntries(log, r))
            /\ ((Interesting /\ Weight % 7 = EmitRes % 7) \/ Weight % EmitMod = EmitRes)
